@@ -148,6 +148,36 @@ def real_sel(costs):
             H.special_agents(pop, None, None, d); out.append([998])
         except ValueError:
             out.append([999])
+    # what a helper returns belongs to the caller: editing a returned list in place (reverse, clear) must not change what the NEXT call returns - for this
+    # population or for another one with the same costs (nothing memoised is handed out)
+    twin = [mk_agent(i, c) for i, c in enumerate(costs)]
+    def plain(v): return [int(x) if not hasattr(x, "position") else x.position[0] for x in v] if isinstance(v, (list, tuple, np.ndarray)) else v
+    for d in (TaskType.MIN, TaskType.MAX):
+        n_ = len(pop)
+        calls = [("sort_by_cost", lambda P: H.sort_by_cost(P, d)), ("sort_by_cost_indexes", lambda P: H.sort_by_cost_indexes(P, d)),
+                 ("best_agents", lambda P: H.best_agents(P, n_, d)), ("worst_agents", lambda P: H.worst_agents(P, max(n_ - 1, 0), d)),
+                 ("best_agents_indexes", lambda P: H.best_agents_indexes(P, n_, d)), ("worst_agents_indexes", lambda P: H.worst_agents_indexes(P, n_, d)),
+                 ("sort_and_trim", lambda P: H.sort_and_trim(P, n_))]
+        for name, f in calls:
+            try:
+                r1 = f(pop); want = plain(r1)
+                if isinstance(r1, list): r1.reverse(); del r1[len(r1) // 2:]
+                elif isinstance(r1, np.ndarray) and r1.flags.writeable: r1[...] = r1[::-1].copy()
+                got = [plain(f(pop)), plain(f(twin))]
+                guard(name)
+                if any(g != want for g in got):
+                    problems.append(f"{name}({d}): after the caller edited the returned list in place, the next call returns {got[0] if got[0] != want else got[1]} instead of {want}")
+            except Exception as ex_:
+                problems.append(f"{name}({d}) raises {type(ex_).__name__} when called again after the caller edited its earlier result")
+        if pop:
+            for name, f in (("best_agent_index", lambda P: H.best_agent_index(P, d)), ("worst_agent_index", lambda P: H.worst_agent_index(P, d))):
+                try:
+                    i1 = int(f(pop)); r1 = H.sort_by_cost_indexes(pop, d)
+                    if isinstance(r1, list): r1.reverse()
+                    i2 = int(f(twin))
+                    if pop[i1].cost != twin[i2].cost: problems.append(f"{name}({d}) designates another cost after the caller edited a list returned by sort_by_cost_indexes")
+                except Exception as ex_:
+                    problems.append(f"{name}({d}) raises {type(ex_).__name__} after the caller edited a list returned by sort_by_cost_indexes")
     for p in range(len(pop) + 2):
         r = H.sort_and_trim(pop, p); guard("sort_and_trim"); out.append(ids(r))
         asc = sorted(frozen, key=lambda a: a.cost)
